@@ -14,9 +14,10 @@ import (
 // generation PRNG before the world starts; the result is stored in the plan.
 
 type gen struct {
-	r   *simrt.Rand
-	tag string
-	n   int
+	r       *simrt.Rand
+	tag     string
+	n       int
+	kfCross bool
 }
 
 func newGen(seed uint64) *gen {
